@@ -102,4 +102,41 @@ theorem testFeasibility_clean_iff_qubo_zero (d : MPData) (suff : ℚ) (x : Vec) 
 /-- one flag per linear row -/
 theorem testFeasibility_length (d : MPData) (x : Vec) : (d.testFeasibility x).1.length = d.m := by
   simp [MPData.testFeasibility]
+
+/-! ## non-vacuity -/
+
+/-- arc-based program of the reachable graph `C15.nv_g` (depot, two customers with windows) on the grid `[0, 2, 6, 8]`:
+    9 variables, 3 flow rows and 2 visit rows -/
+def nv_I : ArcInst := { g := C15.nv_g, T := [0, 2, 6, 8] }
+
+example : nv_I.data.n = 9 ∧ nv_I.data.m = 5 ∧ nv_I.data.b = [0, 0, 0, 1, 1] := by decide +kernel
+
+/-- `d@0 → a@2 → b@6 → d@8` (one vehicle) and the all-zero vector -/
+def nv_x : Vec := vecOf [1, 0, 0, 0, 1, 0, 1, 0, 0]
+def nv_z : Vec := vecOf []
+
+theorem nv_x_bin : IsBin nv_I.data.n nv_x := by unfold IsBin; decide +kernel
+theorem nv_z_bin : IsBin nv_I.data.n nv_z := by unfold IsBin; decide +kernel
+
+/-- the hypothesis of `feasQubo_nonneg_zero_iff` holds for a feasible and for an infeasible vector; both sides of
+    the equivalence occur -/
+example : nv_I.data.feasibleB nv_x = true ∧ nv_I.data.feasibleB nv_z = false := by decide +kernel
+
+example : quad nv_I.data.n (nv_I.data.quboQ (defaultRho nv_I.suffPenalty true) true) nv_x
+    + nv_I.data.quboK (defaultRho nv_I.suffPenalty true) = 0 :=
+  (feasQubo_nonneg_zero_iff nv_I.data nv_I.suffPenalty nv_x nv_x_bin).2.2 (by decide +kernel)
+
+example : quad nv_I.data.n (nv_I.data.quboQ (defaultRho nv_I.suffPenalty true) true) nv_z
+    + nv_I.data.quboK (defaultRho nv_I.suffPenalty true) ≠ 0 := fun h =>
+  absurd ((feasQubo_nonneg_zero_iff nv_I.data nv_I.suffPenalty nv_z nv_z_bin).2.1 h) (by decide +kernel)
+
+/-- the value at the infeasible vector, by evaluation: two visit rows violated -/
+example : nv_I.data.penalty nv_z = 2 ∧ (nv_I.data.testFeasibility nv_z).1 = [false, false, false, true, true] := by
+  decide +kernel
+
+/-- right-hand side of `feasQubo_min_zero_iff_feasible` -/
+example : ∃ x, IsBin nv_I.data.n x ∧
+    quad nv_I.data.n (nv_I.data.quboQ (defaultRho 0 true) true) x + nv_I.data.quboK (defaultRho 0 true) = 0 :=
+  (feasQubo_min_zero_iff_feasible nv_I.data 0).2 ⟨nv_x, nv_x_bin, by decide +kernel⟩
+
 end Vrp.C03
